@@ -229,8 +229,19 @@ fn check_node(n: &Node, pr: &Progs) -> Vec<(String, String, String)> {
             ma.master_reset();
             let mut mm = m.clone();
             mm.master_reset();
-            if ma.bus() != mm.bus() {
-                bad.push(("master-reset/keeps-timer".into(), "a timer write (0xFC) made before master_reset is still visible after it".into(), "MasterReset".into()));
+            // ... also once the timer is switched on again afterwards (an equality that only looks at running
+            // timers must not hide left-over dividers), with each of the control bytes that enable it
+            let mut later = false;
+            for ctl in [0x90u8, 0x9F, 0xB1, 0xD0] {
+                let (mut x, mut y) = (ma.clone(), mm.clone());
+                x.raw_mut().bus_mut().write(0xFD, ctl);
+                y.raw_mut().bus_mut().write(0xFD, ctl);
+                if x.bus() != y.bus() {
+                    later = true;
+                }
+            }
+            if ma.bus() != mm.bus() || later {
+                bad.push(("master-reset/keeps-timer".into(), "a timer write (0xFC) made before master_reset is still visible after it (at once, or as soon as the timer is enabled again)".into(), "MasterReset".into()));
             }
             break;
         }
